@@ -340,6 +340,8 @@ def applyDrain (u : U) (a : String) : U × List Act :=
   else if a = "stopwatch.resume" then ({ u with sw := { u.sw with paused := false } }, [])
   else if a = "sleep.resume" then ({ u with lsPaused := false }, [])
   else if a = "ack" then (u, [.ack])
+  else if a = "break:true" then ({ u with phase := .done, leaked := true }, [])
+  else if a = "break:false" then ({ u with phase := .done, leaked := false }, [])
   else (u, [.panic])
 
 def guardDrain (u : U) (g : String) : Bool :=
